@@ -30,19 +30,21 @@ def locate(text, records, table=None, from_pos=0):
 
 
 def compare(ev, pattern, L, mn_full=None, op_full=None, modes=("bool", "list"), any_macro=None, macros_files=None,
-            doc_macros=None, tag=None, spans=None):
+            doc_macros=None, tag=None, spans=None, text=None, NV=None):
     """Compare JASM (bool first-find + all-matches full text) with the reference on one (rule, listing, flags).
 
     Appends deviations to ev; returns (expected_found, spans, reported_spans or None).
     """
-    NV = norm_view(L)
+    if NV is None:
+        NV = norm_view(L)
     records = [stream_record(a, m, o) for a, m, o in NV]
     table = record_table(records)
     if spans is None:
         ref = Ref(NV, bool(mn_full), bool(op_full), any_macro=any_macro)
         spans = ref.spans(pattern)
     exp = bool(spans)
-    text = render(att_view(L))
+    if text is None:
+        text = render(att_view(L))
     doc = jasm_io.make_doc(pattern, mn_full, op_full, macros=doc_macros)
     ctx = {}
     if mn_full is not None or op_full is not None:
